@@ -92,6 +92,9 @@ func init() {
 		"math.Sqrt":            extSqrt,
 		"math.Abs":             extAbs,
 		"math.Round":           extRound,
+		"math.Floor":           extRoundTo("f64_floor", math.Floor),
+		"math.Ceil":            extRoundTo("f64_ceil", math.Ceil),
+		"math.Trunc":           extRoundTo("f64_trunc", math.Trunc),
 		"math.Log":             extLog,
 		"math.Float32bits":     extFloat32bits,
 		"math.Float32frombits": extFloat32frombits,
@@ -491,6 +494,15 @@ func extRound(fr *frame, args []value) value {
 		return app(types.Float64, "fround", "f64_round", sx)
 	}
 	return math.Round(args[0].(float64))
+}
+
+func extRoundTo(fn string, native func(float64) float64) externalFn {
+	return func(fr *frame, args []value) value {
+		if sx, ok := args[0].(*Sym); ok {
+			return app(types.Float64, "fround", fn, sx)
+		}
+		return native(args[0].(float64))
+	}
 }
 
 func extLog(fr *frame, args []value) value {
